@@ -336,9 +336,13 @@ class ReservablePriorityReqFilterStore(FilterStore):
             # Successful reservation; add to reservations list
             item_len = len(self.reserved_events)
             #check if there any items that satisfy filter condition in other items thatare not already reserved
-            for item in self.items[item_len:]:
+            for pos in range(item_len, len(self.items)):
+                item = self.items[pos]
 
                 if event.filter(item):
+                  # reservations are tied to items by position: bring the matching item to the
+                  # front of the unreserved block (the other items keep their order)
+                  self.items.insert(item_len, self.items.pop(pos))
 
 
                   self.reservations_get.append(event)
